@@ -1,5 +1,5 @@
 """Contracts: emmet/math_expression/extract.py  (C19, extract clause)."""
-from pyvc.contracts import fn, cls, define, rec
+from pyvc.contracts import fn, cls, define, rec, glob
 
 P = ['C19']
 X = 'emmet.math_expression.extract'
@@ -61,3 +61,94 @@ fn(X + ':extract', props=P,
                             "forall(pos, end, lambda i: text[i] == ')' or is_space(text[i]))",
                             'forall(scanner.pos, end, lambda i: expr_char(text[i]))'],
               'decreases': 'end - scanner.pos'}})
+
+# ---------------------------------------------------------------------------------------
+# parser.py: number recognition, the precedence table, and exception freedom of parse()
+# ---------------------------------------------------------------------------------------
+cls(MP + ':Token', alias='MathToken', fields={'type': 'str', 'value': 'any', 'priority': 'int'})
+fn(MP + ':Token.__init__', inline=True, props=P)
+cls(MP + ':MathExpressionException', fields={'message': 'str', 'pos': 'int'})
+fn(MP + ':MathExpressionException.__init__', props=P, trusted=True,
+   params={'self': 'MathExpressionException', 'message': 'str', 'scanner': 'Scanner|None'}, returns='none',
+   requires=[], ensures=['implies(scanner is not None, self.pos == scanner.pos)'],
+   modifies=['self.message', 'self.pos'],
+   note='string formatting of the message and the super().__init__ call are not modelled; only the position field')
+
+fn(MP + ':consume_number', props=P,
+   params={'scanner': 'Scanner'}, returns='bool',
+   requires=['wf(scanner)', 'scanner.pos <= scanner.end'],
+   ensures=['result == (scanner.pos != old(scanner.pos))', 'old(scanner.pos) <= scanner.pos', 'scanner.pos <= scanner.end',
+            'scanner.start == old(scanner.start)',
+            # d+ | d+.d+ | .d+  (never a sign: signs are operators here; never a trailing dot)
+            'implies(result, numshape(scanner.string, old(scanner.pos), scanner.pos))',
+            "implies(result, scanner.string[old(scanner.pos)] != '-' and scanner.string[scanner.pos - 1] != '.')"],
+   # witness for the existential in numshape: no sign; the integer part ends where the first run of digits ends
+   ghost={'g_m': ('int', '-1')},
+   ghost_code={'call scanner.eat_while(is_number)': ['g_m = scanner.pos if g_m < 0 else g_m']},
+   lemmas=['implies(scanner.pos != start, numshape(scanner.string, start, scanner.pos, start, '
+           "        (start if scanner.string[start] == '.' else g_m)))"],
+   modifies=['scanner.pos'])
+
+# the precedence table of C19: `*` before `+`/`-`, `/` and `\` before `*`, unary minus as tight as `/`;
+# every level of parentheses adds 10 (passed in as `priority`)
+fn(MP + ':op1', props=P,
+   params={'value': 'str', 'priority': 'int'}, returns='MathToken',
+   requires=[],
+   ensures=['fresh(result)', "result.type == 'op1'", 'same(result.value, value)',
+            "result.priority == old(priority) + (2 if value == '-' else 0)"],
+   modifies=[], allocates=True)
+
+fn(MP + ':op2', props=P,
+   params={'value': 'str', 'priority': 'int'}, returns='MathToken',
+   requires=[],
+   ensures=['fresh(result)', "result.type == 'op2'", 'same(result.value, value)',
+            "result.priority == old(priority) + (1 if value == '*' else (2 if (value == '/' or value == '\\\\') else 0))"],
+   modifies=[], allocates=True)
+
+fn(MP + ':number', props=P,
+   params={'value': 'str', 'priority': 'int'}, returns='MathToken',
+   requires=['numshape(value, 0, len(value))'],
+   ensures=['fresh(result)', "result.type == 'num'", 'result.priority == priority'],
+   modifies=[], allocates=True)
+
+glob(MP + ':nullary', 'MathToken', invariant=["nullary.type == 'null'", 'nullary.priority == 0'])
+
+define('math_tok', ['t'], "t.type == 'num' or t.type == 'op1' or t.type == 'op2' or t.type == 'null'")
+
+fn(MP + ':order_tokens', props=P,
+   params={'tokens': 'list[MathToken]'}, returns='list[MathToken]|None',
+   requires=['forall(0, len(tokens), lambda i: math_tok(tokens[i]))'],
+   ensures=['result is None or fresh(result)',
+            # execution order is a rearrangement: nothing dropped, nothing invented
+            'result is None or len(result) == len(tokens)'],
+   modifies=[], allocates=True,
+   locals={'operators': 'list[MathToken]', 'operands': 'list[MathToken]'},
+   loops={0: {'anchor': 'for t in tokens',
+              'invariant': ['_i0 <= len(tokens)', 'fresh(operators)', 'fresh(operands)', 'operators is not operands',
+                            'len(operators) + len(operands) == _i0', 'n_operators >= 0'],},
+          1: {'anchor': 'while operators and t.type != TokenType.Op1',
+              'invariant': ['_i0 <= len(tokens)', 'fresh(operators)', 'fresh(operands)', 'operators is not operands',
+                            'len(operators) + len(operands) == _i0 - 1', 'n_operators >= 0'],
+              'decreases': 'len(operators)'}})
+
+fn(MP + ':parse', props=P,
+   params={'expr': 'str'}, returns='list[MathToken]',
+   requires=[],
+   ensures=['fresh(result)'],
+   # the only way out besides a result is the parser's own error, at a position inside the expression
+   raises=['MathExpressionException'], ensures_on_raise=['0 <= exc.pos', 'exc.pos <= len(expr)'],
+   modifies=[], allocates=True,
+   locals={'tokens': 'list[MathToken]'},
+   # ghost: the number of parentheses opened and not yet closed in the text consumed so far
+   ghost={'g_depth': ('int', '0')},
+   ghost_code={'call scanner.eat(Operator.LeftParenthesis)': ['g_depth = g_depth + (1 if result else 0)'],
+               'call scanner.eat(Operator.RightParenthesis)': ['g_depth = g_depth - (1 if result else 0)']},
+   loops={0: {'anchor': 'while not scanner.eof()', 'writes': 'fresh',
+              'invariant': ['wf(scanner)', 'scanner.pos <= scanner.end', 'scanner.end == len(expr)', 'fresh(scanner)',
+                            'same_str(scanner.string, expr)', 'fresh(tokens)', 'priority >= 0',
+                            # every open parenthesis adds 10 to the priority of the operators inside it
+                            'priority == 10 * g_depth',
+                            'forall(0, len(tokens), lambda i: math_tok(tokens[i]))',
+                            # Primary|LParen|Sign, Operator|RParen, Primary|LParen|Sign|NullaryCall
+                            'expected == 21 or expected == 10 or expected == 53'],
+              'decreases': 'scanner.end - scanner.pos'}})
